@@ -12,6 +12,7 @@
 m_ctx_t *vf_the_ctx;
 #include <pthread.h>
 void *pthread_getspecific(pthread_key_t k) { return vf_the_ctx; }   /* TLS slot of this thread; ctx.c:m_ctx() is real */
+int pthread_once(pthread_once_t *o, void (*fn)(void)) { (void)o; (void)fn; return 0; }   /* the key exists (m_ctx() creates it on first use) */
 void fetch_ms(uint64_t *val, uint64_t *ctr) { *val = nondet_u64(); if (ctr) (*ctr)++; }
 int VF_MANAGE_SRCS(m_mod_t *mod, m_ctx_t *c, int flag, bool stop) { return 0; }
 int VF_INIT_PUBSUB_FD(m_mod_t *mod) { return 0; }
